@@ -877,12 +877,71 @@ async fn run_scenario(t: &Template, sc: &Scenario, work: &Path) -> Value {
                 }
             }
         }
-        // ---- C05 content consequence: folder contents == reference
-        // reduce of the device's own (converged) log is C02; here: a
-        // secret created offline on one device is on all
-        let _ = reference_reduce;
-        for d in 0..devices.len() {
-            let _ = d;
+        // ---- C05 consequence: the converged folder equals the replay of
+        // the shared prefix followed by every device's offline events in
+        // timestamp order (latest edit wins, a deleted secret stays
+        // deleted unless edited later). Judged on converged folder logs of
+        // worlds without a history rewrite and without timestamp ties.
+        let mut c05_state_checked = 0u64;
+        if !rewrite && sc.clock != ClockPat::Tie && differing.is_empty() {
+            use sos_core::events::WriteEvent;
+            let a = devices[0].account.lock().await;
+            let folders: Vec<VaultId> = a.list_folders().await?.iter().map(|s| *s.id()).collect();
+            let conv: BTreeMap<String, Vec<EventRecord>> = all_logs(&*a, &folders).await?.into_iter().collect();
+            drop(a);
+            for (name, recs) in &conv {
+                if !name.starts_with("folder:") {
+                    continue;
+                }
+                let Some(p) = prefix.get(name) else { continue };
+                let sufs: Vec<Vec<EventRecord>> = suffixes.iter().map(|s| s.get(name).cloned().unwrap_or_default()).collect();
+                if sufs.iter().filter(|s| !s.is_empty()).count() < 2 {
+                    continue;
+                }
+                let mut merged: Vec<(i128, usize, usize, EventRecord)> = vec![];
+                for (d, su) in sufs.iter().enumerate() {
+                    for (i, r) in su.iter().enumerate() {
+                        let t: time::OffsetDateTime = r.time().clone().into();
+                        merged.push((t.unix_timestamp_nanos(), d, i, r.clone()));
+                    }
+                }
+                merged.sort_by_key(|x| (x.0, x.1, x.2));
+                // equal times on different devices: the order is not defined
+                if merged.windows(2).any(|w| w[0].0 == w[1].0 && w[0].1 != w[1].1) {
+                    continue;
+                }
+                let mut want_events: Vec<WriteEvent> = vec![];
+                for r in p.iter().chain(merged.iter().map(|x| &x.3)) {
+                    want_events.push(r.decode_event::<WriteEvent>().await?);
+                }
+                let mut got_events: Vec<WriteEvent> = vec![];
+                for r in recs {
+                    got_events.push(r.decode_event::<WriteEvent>().await?);
+                }
+                let (Ok(want), Ok(got)) = (reference_reduce(&want_events).await, reference_reduce(&got_events).await) else { continue };
+                c05_state_checked += 1;
+                let ids = |v: &sos_vault::Vault| -> Vec<String> {
+                    let mut k: Vec<String> = v.keys().map(|k| k.to_string()).collect();
+                    k.sort();
+                    k
+                };
+                let what = if ids(&want) != ids(&got) {
+                    Some(if ids(&got).len() > ids(&want).len() { "secret_ids(extra)" } else if ids(&got).len() < ids(&want).len() { "secret_ids(missing)" } else { "secret_ids" })
+                } else if want.keys().any(|k| want.get(k).map(|c| sos_core::commit::CommitHash(c.0 .0)) != got.get(k).map(|c| sos_core::commit::CommitHash(c.0 .0))) {
+                    Some("secret_content")
+                } else if want.name() != got.name() {
+                    Some("name")
+                } else if want.flags() != got.flags() {
+                    Some("flags")
+                } else if want.header().meta() != got.header().meta() {
+                    Some("description")
+                } else {
+                    None
+                };
+                if let Some(what) = what {
+                    fails.push("C05", format!("converged_folder_differs_from_time_ordered_replay:{}:{}", cls, what), "the converged folder is not the replay of the shared prefix followed by all devices' offline events in timestamp order".into(), json!({"log": name, "expected_secrets": ids(&want).len(), "got_secrets": ids(&got).len()}));
+                }
+            }
         }
         let mut out = Map::new();
         out.insert("results".into(), json!(results));
@@ -891,6 +950,7 @@ async fn run_scenario(t: &Template, sc: &Scenario, work: &Path) -> Value {
         out.insert("rounds".into(), json!(rounds));
         out.insert("c05_logs_checked".into(), json!(c05_checked));
         out.insert("c05_logs_not_converged".into(), json!(c05_skipped));
+        out.insert("c05_final_states_checked".into(), json!(c05_state_checked));
         let view_digest = views.first().and_then(|v| v.as_ref()).map(|v| fsutil::sha256_hex(serde_json::to_string(v).unwrap().as_bytes())).unwrap_or_default();
         let _ = view_digest;
         let outcome = format!("{}|{}", if differing.is_empty() { "converged" } else { "stuck" }, results.iter().map(|r| r["result"].as_str().unwrap().chars().next().unwrap()).collect::<String>());
@@ -975,6 +1035,22 @@ fn scenarios(tier: Tier, backend: Backend, server_db: bool) -> Vec<Scenario> {
         for y in [vec![], vec![Edit::CreateNote], vec![Edit::RenameDefaultOwn]] {
             for o in &orders {
                 out.push(Scenario { edits: vec![x.clone(), y.clone()], order: o.clone(), clock: clocks[0], client_backend: backend, server_db });
+            }
+        }
+    }
+    if tier == Tier::Quick {
+        // L = 2 on both sides where both suffixes contain the same
+        // byte-identical event (delete of the same secret, rename to the
+        // same name) next to another event: the shapes in which an event
+        // of one device can be mistaken for the other device's
+        for ident in [Edit::DeleteS0, Edit::RenameDefaultSame] {
+            let with: Vec<&Vec<Edit>> = doubles.iter().filter(|d| d.contains(&ident) && d[0] != d[1]).collect();
+            for a in &with {
+                for b in &with {
+                    for o in &orders {
+                        out.push(Scenario { edits: vec![(*a).clone(), (*b).clone()], order: o.clone(), clock: clocks[0], client_backend: backend, server_db });
+                    }
+                }
             }
         }
     }
@@ -1113,6 +1189,7 @@ fn main() {
     let mut sync_calls = 0u64;
     let mut c05_logs = 0u64;
     let mut c05_skip = 0u64;
+    let mut c05_states = 0u64;
     let mut harness_errors: BTreeMap<String, u64> = BTreeMap::new();
     let mut stuck_err = 0u64;
     for (i, r) in res.into_iter().enumerate() {
@@ -1141,6 +1218,7 @@ fn main() {
                 sync_calls += v["results"].as_array().map(|a| a.len() as u64).unwrap_or(0);
                 c05_logs += v["c05_logs_checked"].as_u64().unwrap_or(0);
                 c05_skip += v["c05_logs_not_converged"].as_u64().unwrap_or(0);
+                c05_states += v["c05_final_states_checked"].as_u64().unwrap_or(0);
                 if let Some(fs) = v["fails"].as_array() {
                     for f in fs {
                         if f["prop"].as_str() == Some(prop.as_str()) {
@@ -1169,6 +1247,7 @@ fn main() {
     cov.insert("distinct_outcomes".into(), json!(outcomes));
     cov.insert("c05_replica_logs_checked".into(), json!(c05_logs));
     cov.insert("c05_logs_skipped_because_not_converged".into(), json!(c05_skip));
+    cov.insert("c05_converged_folders_compared_with_time_ordered_replay".into(), json!(c05_states));
     cov.insert("world_errors".into(), json!(harness_errors));
     cov.insert("worlds_where_a_device_keeps_getting_an_error_from_sync_(not_a_violation_of_the_property_as_stated)".into(), json!(stuck_err));
     cov.insert("exhaustive".into(), json!(true));
